@@ -19,6 +19,7 @@ import (
 
 	"github.com/google/uuid"
 	hio "github.com/hprose/hprose-golang/v3/io"
+	"github.com/hprose/hprose-golang/v3/rpc/codec/jsonrpc"
 	"github.com/hprose/hprose-golang/v3/rpc/core"
 	"verif/internal/corpus"
 	"verif/internal/gen"
@@ -96,6 +97,8 @@ func initService() {
 }
 
 var svc2 *core.Service // without missing-method handler
+
+var svc3 *core.Service // JSON-RPC service codec
 
 func entries() []entry {
 	return []entry{
@@ -349,6 +352,13 @@ func runJob(j job, ents []entry) (err error) {
 			return runService(svc, j.data)
 		}
 		return runService(svc2, j.data)
+	case "jsonrpc-service":
+		return runService(svc3, j.data)
+	case "jsonrpc-client":
+		cc := core.NewClientContext()
+		cc.ReturnType = returnTypeSets[j.rt]
+		_, err := jsonrpc.NewClientCodec(nil).Decode(j.data, cc)
+		return err
 	default:
 		return runClient(j.data, returnTypeSets[j.rt])
 	}
@@ -360,6 +370,10 @@ func (j job) describe() string {
 		return fmt.Sprintf("io/%s simple=%v dest=%s", [...]string{"Unmarshal", "Decoder.Decode+Read", "FromReader"}[j.entry], j.simple, j.dest)
 	case "service":
 		return fmt.Sprintf("Service.Handle(missing-method handler=%v)", j.entry == 0)
+	case "jsonrpc-service":
+		return "Service.Handle with the JSON-RPC service codec"
+	case "jsonrpc-client":
+		return fmt.Sprintf("jsonrpc ClientCodec.Decode(return types %v)", returnTypeSets[j.rt])
 	}
 	return fmt.Sprintf("ClientCodec.Decode(return types %v)", returnTypeSets[j.rt])
 }
@@ -456,6 +470,9 @@ func TestCheck(t *testing.T) {
 	initService()
 	svc2 = core.NewService()
 	svc2.AddInstanceMethods(svcObj{})
+	svc3 = core.NewService()
+	svc3.Codec = jsonrpc.NewServiceCodec(nil)
+	svc3.AddInstanceMethods(svcObj{})
 	ents := entries()
 	dests := destTypes()
 	r.Meta("rule", "valid streams (C01 universe sample, hand-written streams using every tag, RPC requests and responses) are mutated: every truncation; every single-byte substitution from a 48-byte alphabet of tags/digits/delimiters/boundary bytes (exhaustive on streams <= 48 bytes in quick, <= 96 in thorough, sampled on longer ones); single insertions and deletions; grammar-aware replacement of every count/length/reference/class index by 22 hostile values; container tag swaps; seeded random byte strings. Each mutant is decoded into its own type, interface{} and seeded other destinations through Unmarshal, Decoder.Read (two values), reader mode, Service.Handle (9 published signatures, with and without missing-method handler) and ClientCodec.Decode (6 return-type sets). Monitors: recover (panic), child death (fatal error / OOM under ulimit -v), per-case watchdog (hang), heap bytes allocated per decode <= 1 MiB + 4096 B per input byte, thread CPU time per decode <= 250 ms + 2 us per input byte. Hand-written amplification literals (exponents of 5..20 digits in i/l/d tokens and in strings, 60 000-digit numbers, lists and maps nested 1 000 / 10 000 / 100 000 deep, closed and unclosed, 1 000 references to a 50 KB string or byte string, a 200-field class instantiated 300 times) are decoded into every destination under the same monitors. distinct_nontrivial = distinct mutated inputs (hashed) executed")
@@ -478,6 +495,15 @@ func TestCheck(t *testing.T) {
 	for i, q := range resps {
 		i, q := i, q
 		r.Case(fmt.Sprintf("client/%d", i), func(c *h.Case) { rpcCase(c, q, "client", ents, maxExh) })
+	}
+	jreqs, jresps := jsonCorpus()
+	for i, q := range jreqs {
+		i, q := i, q
+		r.Case(fmt.Sprintf("jsonrpc-service/%d", i), func(c *h.Case) { rpcCase(c, q, "jsonrpc-service", ents, maxExh) })
+	}
+	for i, q := range jresps {
+		i, q := i, q
+		r.Case(fmt.Sprintf("jsonrpc-client/%d", i), func(c *h.Case) { rpcCase(c, q, "jsonrpc-client", ents, maxExh) })
 	}
 	for i, hl := range hostileLiterals() {
 		i, hl := i, hl
@@ -592,6 +618,12 @@ func rpcCase(c *h.Case, data []byte, kind string, ents []entry, maxExh int) {
 			for _, m := range ms[b*chunk : minInt((b+1)*chunk, len(ms))] {
 				if kind == "service" {
 					jobs = append(jobs, job{data: m, kind: kind, entry: 0}, job{data: m, kind: kind, entry: 1})
+				} else if kind == "jsonrpc-service" {
+					jobs = append(jobs, job{data: m, kind: kind})
+				} else if kind == "jsonrpc-client" {
+					for rt := range returnTypeSets {
+						jobs = append(jobs, job{data: m, kind: kind, rt: rt})
+					}
 				} else {
 					jobs = append(jobs, job{data: m, kind: kind, rt: rng.Intn(len(returnTypeSets))}, job{data: m, kind: kind, rt: rng.Intn(len(returnTypeSets))})
 				}
@@ -688,4 +720,44 @@ func hostileLiterals() []hostile {
 	add("class-with-many-fields-referenced-often", "c1\"A\"200{"+rep("s1\"f\"", 200)+"}"+"a300{"+rep("o0{"+rep("n", 200)+"}", 300)+"}")
 	add("guid-and-time-garbage", "a4{g{"+rep("f", 36)+"}D99999999T999999.999999999ZT999999.999999999999ZD00000000Z}")
 	return out
+}
+
+// jsonCorpus: JSON-RPC 2.0 requests for the published methods and responses of every shape
+// (the mutators then damage them; the structural variants below are the ones byte mutation
+// does not reach: wrong parameter counts, results of another shape than the caller expects).
+func jsonCorpus() (requests, responses [][]byte) {
+	req := func(s string) { requests = append(requests, []byte(s)) }
+	resp := func(s string) { responses = append(responses, []byte(s)) }
+	for _, params := range []string{`["world"]`, `[]`, `["a","b"]`, `["a",1,2,3,4,5,6,7,8,9]`, `[1]`, `[null]`, `[{"a":1}]`, `[[1,2]]`, `{"name":"x"}`, `"world"`, `5`, `null`} {
+		req(`{"jsonrpc":"2.0","id":1,"method":"hello","params":` + params + `}`)
+		req(`{"jsonrpc":"2.0","id":1,"method":"sum","params":` + params + `}`)
+		req(`{"jsonrpc":"2.0","id":1,"method":"var","params":` + params + `}`)
+		req(`{"jsonrpc":"2.0","id":1,"method":"struct","params":` + params + `}`)
+		req(`{"jsonrpc":"2.0","id":1,"method":"any","params":` + params + `}`)
+		req(`{"jsonrpc":"2.0","id":1,"method":"bytes","params":` + params + `}`)
+		req(`{"jsonrpc":"2.0","id":1,"method":"ctx","params":` + params + `}`)
+		req(`{"jsonrpc":"2.0","id":1,"method":"scalars","params":` + params + `}`)
+		req(`{"jsonrpc":"2.0","id":1,"method":"none","params":` + params + `}`)
+		req(`{"jsonrpc":"2.0","id":1,"method":"nosuchmethod","params":` + params + `}`)
+	}
+	req(`{"jsonrpc":"2.0","id":1,"method":"hello"}`)
+	req(`{"jsonrpc":"2.0","method":"hello","params":["x"]}`)
+	req(`{"jsonrpc":"1.0","id":1,"method":"hello","params":["x"]}`)
+	req(`{"jsonrpc":"2.0","id":{"a":[1,2]},"method":"hello","params":["x"],"headers":{"simple":true,"k":[1,{"z":null}]}}`)
+	req(`{"jsonrpc":"2.0","id":1,"method":"hello","params":["x"],"headers":5}`)
+	req(`[{"jsonrpc":"2.0","id":1,"method":"hello","params":["x"]}]`)
+	req(`{`)
+	req(`{}`)
+	for _, result := range []string{`"hello"`, `5`, `1.5`, `true`, `null`, `[]`, `[1]`, `[1,"two"]`, `[1,"two",3,4,5,6,7,8]`, `{"a":1}`, `{"Name":"t","Kids":[{"Name":"k"}]}`, `[[1,2],{"a":1},{"Name":"t"}]`, `"` + string(bytes.Repeat([]byte("x"), 300)) + `"`} {
+		resp(`{"jsonrpc":"2.0","id":1,"result":` + result + `}`)
+		resp(`{"jsonrpc":"2.0","id":1,"result":` + result + `,"headers":{"h":1}}`)
+	}
+	for _, e := range []string{`{"code":-32601,"message":"Method not found"}`, `{"code":0,"message":"plain"}`, `{"code":1,"message":"m","data":{"x":[1]}}`, `{"code":"x"}`, `"error"`, `5`, `null`, `[]`, `{"message":5}`} {
+		resp(`{"jsonrpc":"2.0","id":1,"error":` + e + `}`)
+		resp(`{"jsonrpc":"2.0","id":1,"result":1,"error":` + e + `}`)
+	}
+	resp(`{}`)
+	resp(`[]`)
+	resp(`{"jsonrpc":"2.0","id":1,"result":1,"headers":5}`)
+	return
 }
